@@ -24,8 +24,34 @@ TRUSTED = ["rustc MIR lowering", "C11/C12 coset tables, C10 reduced words"]
 ASSUMPTIONS = ["valid transitive coset table (as the property states)"]
 
 
+def first_letter_guarded(ctx, g):
+    """relators_by_start_gen files every rotation / inverse of every relator under its first letter; a relator that freely reduces to the empty word
+    has the empty word as its only 'rotation' and no first letter - it constrains nothing and must be skipped, not indexed"""
+    ctx.clauses.append("relators are filed under their first letter only if they have one: a trivial (empty) relator is skipped (T5)")
+    b = ctx.body("fpgroups::stabilizer::relators_by_start_gen")
+    ctx.scan(ctx.facts.with_closures(b.name))
+    n = 0
+    bad = []
+    for bi, t in b.calls("Index::index"):
+        a = [strip(norm(b.origin(x), g)) for x in t["args"]]
+        if "FreeWord" not in t["callee"].get("resolved", "") and "FreeWord" not in str(t["callee"].get("args", "")):
+            continue
+        n += 1
+        ln = ("call", "fpgroups::free_words::FreeWord::len", (a[0],))
+        fa = [atom_norm(x, g) for x in b.facts_at(bi)]
+        ok = any(x[0] == "rel" and (implies(x, ("rel", "Lt", a[1], ln)) or (a[1] == ("int", 0) and (implies(x, ("rel", "Ne", ln, ("int", 0))) or implies(x, ("rel", "Lt", ("int", 0), ln))))) for x in fa) or \
+            any(x[0] == "bool" and x[2] is False and is_call(x[1], "is_empty") for x in fa)
+        if not ok:
+            bad.append(show(a[1], 1)[:20])
+    ctx.floor("first-letter reads in relators_by_start_gen", n, 1)
+    ctx.ob("T5-first-letter-guarded", b.name, "w[0] <- w.len() > 0", "ok" if not bad else "violation",
+           "the first letter is read only of non-empty words" if not bad else
+           "w[%s] is read of every rotation of every relator: stabilizer() panics on a presentation with a trivial relator such as a a^-1 (its only rotation is the empty word)" % ", ".join(bad))
+
+
 def run(ctx):
     g = ctx.facts.getters()
+    first_letter_guarded(ctx, g)
     stab(ctx, g)
     close_rel(ctx, g)
     tree(ctx, g)
